@@ -229,6 +229,19 @@ func stateIneqs(st *State) []*linForm {
 						l2.k++
 						out = append(out, l2)
 					}
+				case "min", "max":
+					// min(a, b, ...) <= each argument <= max(a, b, ...)
+					for _, a := range x.Args {
+						l := newLin()
+						if x.Name == "min" {
+							l.add(linOf(a), 1)
+							l.add(linOf(x), -1)
+						} else {
+							l.add(linOf(x), 1)
+							l.add(linOf(a), -1)
+						}
+						out = append(out, l)
+					}
 				case "path.Clean", "path/filepath.Clean", "filepath.Clean":
 					// never empty
 					l := newLin()
